@@ -122,6 +122,7 @@ TRICKY = ["-({a}**2)", "-({a}**2)*{b}", "0 - {a}**2/3", "-({a}+{b})**2", "{b}**(
           "-(0.00002**{a})", "-(1e20**{a})*3", "-(2.5**{a})*{b}", "-(pi**{a})", "{b} - 3e-9**{a}", "-(0.5**{a})/{b}", "1e-10*{a} - 1e22*{b}**2",
           "-(1e-7**q0)", "-(2.5e-5**q1)*q0", "-1.5e-8*{a}**2",
           "-((({a}+{b})*{a})**{b})", "-1*(({a}+1)**2)**{b}", "-(((q2+1)*q2)**0.5)", "0.5-((q2+1)*q2)**0.5", "-((2*({a}+{b}))**{a})*{b}", "-(sin(({a}+1)*{b})**2)",
+          "(q0**2)**0.5", "(q0*q0)**0.5 + q1", "(q1**4)**0.25 * 2", "(q0**2*{a})**0.5", "(q0**2)**1.5 - q1", "(q2**-2)**0.5",
           "{I} - 8e2j", "{I}*1j + 2", "2j*{E} - {I}", "({I} / 7 + 0) * (3J - 9)", "q1*1j - {I}"]
 
 
